@@ -311,42 +311,10 @@ theorem vmValue_rel {a b : List Node} (h : HintRelL a b) (i : Nat) : HintRel (vm
 def decoupleStep (el : Node) : Option Node :=
   match el with
   | .mk .arg _ [.mk .array _ [.mk .list _ inner]] =>
-    let argument : Option String :=
-      match (inner[1]? : Option Node) with
-      | some (.mk .arg _ [.mk .str (s :: _) _]) => some s
-      | _ => none
-    let inner := if argument.isSome then inner.take 1 ++ inner.drop 2 else inner
-    let name :=
-      match argument with
-      | some a => .mk .jsxNsName [] [nIdentName "v-model", nIdentName a]
-      | none => nIdentName "v-model"
-    some (.mk .jsxAttr [] [name, .mk .jsxExprContainer [] [nArray inner]])
+    some (.mk .jsxAttr [] [nIdentName "v-model", .mk .jsxExprContainer [] [nArray inner]])
   | _ => none
 
 theorem decoupleVModels_eq (elems : List Node) : decoupleVModels elems = elems.filterMap decoupleStep := rfl
-
-def secondStr (inner : List Node) : Option String :=
-  match (inner[1]? : Option Node) with
-  | some (.mk .arg _ [.mk .str (s :: _) _]) => some s
-  | _ => none
-
-theorem secondStr_rel {a b : List Node} (h : HintRelL a b) : secondStr a = secondStr b := by
-  unfold secondStr
-  rcases h.getElem? 1 with ⟨h1, h2⟩ | ⟨x, y, h1, h2, hxy⟩
-  · rw [h1, h2]
-  · rw [h1, h2]
-    cases hxy with
-    | vnode => rfl
-    | node k as hl =>
-      cases k <;> try rfl
-      rcases hl with _ | ⟨g1, _ | ⟨g2, hl⟩⟩
-      · rfl
-      · cases g1 with
-        | vnode => rfl
-        | node k2 as2 hl2 =>
-          cases k2 <;> try rfl
-          cases as2 <;> rfl
-      · simp
 
 theorem decoupleStep_rel (x y : Node) (h : HintRel x y) : OptRel (decoupleStep x) (decoupleStep y) := by
   cases h with
@@ -363,14 +331,8 @@ theorem decoupleStep_rel (x y : Node) (h : HintRel x y) : OptRel (decoupleStep x
       | vnode => simp [decoupleStep, OptRel]
       | node k3 as3 hl3 =>
         cases k3 <;> try (simp [decoupleStep, OptRel]; done)
-        have hs := secondStr_rel hl3
-        unfold secondStr at hs
         simp only [decoupleStep, OptRel]
-        rw [hs]
-        refine .node _ _ (.cons (HintRel.refl _) (.cons (.node _ _ (.cons (rel_nArray ?_) .nil)) .nil))
-        split
-        · exact (hl3.take 1).append (hl3.drop 2)
-        · exact hl3
+        exact .node _ _ (.cons (HintRel.refl _) (.cons (.node _ _ (.cons (rel_nArray hl3) .nil)) .nil))
 
 theorem decoupleVModels_rel {a b : List Node} (h : HintRelL a b) : HintRelL (decoupleVModels a) (decoupleVModels b) := by
   rw [decoupleVModels_eq, decoupleVModels_eq]
